@@ -155,7 +155,7 @@ def run_blockservice(ctx, pid, reg_recs=None):
     prepare_blockservice_spec(ctx, reg_recs)
     # ---- M
     ctx.tlc_mc(spec, "MCBlockService.tla", "MCBlockService.cfg", timeout=900, coverage=not ctx.quick,
-               allow_zero=("DevCachePut",))
+               allow_zero=("S_DevCachePut",))
     if not ctx.quick:
         for cfg in ("MCBlockService3.cfg", "MCBlockServiceSeq.cfg", "MCBlockServiceConc.cfg"):
             ctx.tlc_mc(spec, "MCBlockService.tla", cfg, timeout=3000)
